@@ -76,9 +76,10 @@ def load_crate(path, prefix, renames=None, known_ids=None):
     doc = json.loads(raw)
     inlined = []
     if known_ids is not None:
-        from .inline import inline_new_helpers, desugar_internal_iteration, thread_known_discriminants
+        from .inline import inline_new_helpers, desugar_internal_iteration, thread_known_discriminants, desugar_result_map
         threaded = thread_known_discriminants(doc)          # part of both views (raw and inlined)
         inlined = inline_new_helpers(doc, known_ids)
+        inlined += desugar_result_map(doc)                  # before the loops: a loop closure's `f(x).map(|y| ..)` is spliced with it
         inlined += desugar_internal_iteration(doc)
         if inlined:
             threaded += thread_known_discriminants(doc)     # a spliced helper's `return Err(..)` followed by the caller's `?`
